@@ -34,6 +34,9 @@ R6 (K2) the empty selection is kept distinct from "no selection": specific_files
 Added while testing against seeded changes: R6b the selection and the exclusion are
 sorted(minimum_path_selection(...)) of what the caller passed and nothing else (no filtering of excludes/selected
 paths).
+R7 (K1) publication last: RepositoryPackCollection._commit_write_group never runs autopack() after _save_pack_names();
+   VersionedFileCommitBuilder.commit signs before _add_revision. R8 (K1) ContentFilterAwareSHA1Provider.sha1 /
+   stat_and_sha1 hash the file on every normal path (no memo). Both added from third-round seeds.
 Does not decide: that the recorded tree equals basis+selection for every tree shape and path selection
 (record_iter_changes / _filter_iter_changes are data dependent).
 """
@@ -139,6 +142,35 @@ def run(ctx):
     ctx.check("R6-selected-merge-refused", where, len(refusal) >= 1 and not (set(refusal) & g.reach(gb)), "a selected-file commit of a merge is refused before the builder exists")
 
 
+    # ---- R7: publication is the last fallible step of a commit -----------------------------------------------------------
+    # (a) pack repositories: writing pack-names (_save_pack_names) makes the new revision visible; autopack — which can
+    # fail — is attempted before it, never after (when autopack does pack it saves the names itself).
+    VF = "breezy/bzr/vf_repository.py"
+    W4 = "breezy/bzr/workingtree_4.py"
+    fcw, gcw, wcw = fn_cfg(ctx, PR, "RepositoryPackCollection._commit_write_group")
+    sv = need(wcw, calling(gcw, attr="_save_pack_names"), "self._save_pack_names()")
+    ap = need(wcw, calling(gcw, attr="autopack"), "self.autopack()")
+    k1_never_after(ctx, "R7-publish-last", wcw, gcw, sv, ap, "no autopack after the new pack was published in pack-names: a failing repack then fails the commit with the revision already visible")
+    # (b) the commit builder signs before it adds the revision: formats without write-group isolation (knit) make the
+    # revision visible on _add_revision, so a failing signature afterwards leaves a revision of a commit that raised
+    fvc, gvc, wvc = fn_cfg(ctx, VF, "VersionedFileCommitBuilder.commit")
+    helpers = {q.split(".")[-1] for q, f_ in repo.module(VF).functions().items() if q.startswith("VersionedFileCommitBuilder.") and any(call_attr(c) == "store_revision_signature" for c in calls_in(f_))}
+    sg = [n.id for n in gvc.nodes if any(call_attr(c) == "store_revision_signature" or (call_recv(c) == "self" and call_attr(c) in helpers - {"commit"}) for c in n.calls())]
+    ad = need(wvc, calling(gvc, attr="_add_revision"), "self.repository._add_revision(rev)")
+    ctx.require(bool(sg), f"{wvc}: the signing step was not found")
+    k1_never_after(ctx, "R7-publish-last", wvc, gvc, ad, sg, "the revision is signed before it is added: nothing that can fail for configuration reasons follows _add_revision")
+    # ---- R8: the hash the dirstate compares with is always computed from the file -----------------------------------------
+    # ContentFilterAwareSHA1Provider.sha1 / stat_and_sha1 reach the hashing call on every normal path: a memo keyed on
+    # (size, mtime) hands back the hash of bytes that are no longer there, commit then records the old content and the
+    # tree reports the file as modified afterwards
+    for meth in ("sha1", "stat_and_sha1"):
+        fsp, gsp, wsp = fn_cfg(ctx, W4, f"ContentFilterAwareSHA1Provider.{meth}")
+        gx = gsp.without_exc_edges()
+        hs = [n.id for n in gx.nodes if any((call_attr(c) or norm(c.func)).endswith(("size_sha_file", "internal_size_sha_file_byname", "sha_file", "sha_file_by_name")) for c in n.calls())]
+        r8 = gx.reach([gx.entry], avoid=set(hs), include_src=True)
+        ctx.check("R8-hash-always-computed", wsp, bool(hs) and gx.exit not in r8, f"{meth}() hashes the file on every normal path", message=f"ContentFilterAwareSHA1Provider.{meth} can answer without hashing the file (a cached value): after a same-size, same-mtime rewrite under one tree lock the commit records the old bytes and the tree reports the file as changed afterwards")
+
+
 def _unlock_aborts(ctx):
     """C06-R4 re-checked: Repository.unlock / PackRepository.unlock abort a live write group."""
     ok = True
@@ -150,6 +182,8 @@ def _unlock_aborts(ctx):
 
 _H = "            except Exception:\n                mutter(\"aborting commit write group because of exception:\")\n                trace.log_exception_quietly()\n                self.builder.abort()\n                raise\n"
 MUTANTS = [
+    Mutant("pack-names written before autopack", PR, "        if any_new_content:\n            result = self.autopack()\n            if not result:\n", "        if any_new_content:\n            self._save_pack_names()\n            result = self.autopack()\n            if not result:\n", expect="R7-publish-last"),
+    Mutant("sha1 provider remembers hashes by size and mtime", "breezy/bzr/workingtree_4.py", "        filters = self.tree._content_filter_stack(\n            self.tree.relpath(osutils.safe_unicode(abspath))\n        )\n        return _mod_filters.internal_size_sha_file_byname(abspath, filters)[1]\n", "        st = os.lstat(abspath)\n        memo = self.__dict__.setdefault(\"_memo\", {})\n        if memo.get(abspath, (None,))[0] == (st.st_size, st.st_mtime):\n            return memo[abspath][1]\n        filters = self.tree._content_filter_stack(\n            self.tree.relpath(osutils.safe_unicode(abspath))\n        )\n        memo[abspath] = ((st.st_size, st.st_mtime), _mod_filters.internal_size_sha_file_byname(abspath, filters)[1])\n        return memo[abspath][1]\n", expect="R8-hash-always-computed"),
     Mutant("excludes outside the selection dropped", CM, "                self.specific_files = sorted(minimum_path_selection(specific_files))\n            else:", "                self.specific_files = sorted(minimum_path_selection(specific_files))\n                self.exclude = [p for p in self.exclude if is_inside_any(self.specific_files, p)]\n            else:", expect="R6-selection-unnarrowed"),
     Mutant("tip moved before builder.commit", CM, "                # Add revision data to the local branch\n                self.rev_id = self.builder.commit(self.message)\n", "                # Add revision data to the local branch\n                self._update_branches(old_revno, old_revid, new_revno)\n                self.rev_id = self.builder.commit(self.message)\n", expect=["R1-tip-after-builder-commit", "R1-single-update-site", "R1-tip-outside-pipeline-try"]),
     Mutant("tip written directly in commit()", CM, "            self._update_branches(old_revno, old_revid, new_revno)\n\n            # Make the working tree", "            self.branch.set_last_revision_info(new_revno, self.rev_id)\n            self._update_branches(old_revno, old_revid, new_revno)\n\n            # Make the working tree", expect="R1-tip-writers"),
